@@ -267,6 +267,11 @@ func emit[D any](r *runState, slot int, act action, items []D, capSpec int, ferr
 	r.mu.Unlock()
 	failAt := -1
 	if act == actFailMid {
+		if len(items) == 0 {
+			// a stream that would carry nothing: the failure is all it carries
+			var z D
+			items = []D{z}
+		}
 		failAt = len(items) / 2
 	}
 	go func() {
